@@ -12,6 +12,7 @@
 package main
 
 import (
+	"sort"
 	"encoding/json"
 	"fmt"
 	"strings"
@@ -122,6 +123,7 @@ const (
 	node2UUID  = "22222222-2222-4222-8222-222222222222"
 	sendUUID   = "33333333-3333-4333-8333-333333333331"
 	setresUUID = "33333333-3333-4333-8333-333333333332"
+	bcastUUID  = "33333333-3333-4333-8333-333333333333"
 	caseUUID   = "44444444-4444-4444-8444-444444444441"
 	catBobUUID = "55555555-5555-4555-8555-555555555551"
 	catOthUUID = "55555555-5555-4555-8555-555555555552"
@@ -151,6 +153,13 @@ func buildAssets(c *config) []byte {
 				loc[lc][p.item] = map[string][]string{}
 			}
 			loc[lc][p.item][p.name] = arr
+			// the send_broadcast action carries the same three properties with the same translations
+			if p.item == sendUUID {
+				if loc[lc][bcastUUID] == nil {
+					loc[lc][bcastUUID] = map[string][]string{}
+				}
+				loc[lc][bcastUUID][p.name] = arr
+			}
 		}
 	}
 	flow := map[string]any{
@@ -162,6 +171,8 @@ func buildAssets(c *config) []byte {
 				"actions": []any{
 					map[string]any{"uuid": sendUUID, "type": "send_msg", "text": c.BaseText, "attachments": c.BaseAtts, "quick_replies": c.BaseQRs},
 					map[string]any{"uuid": setresUUID, "type": "set_run_result", "name": "sr", "value": "v", "category": "Cat"},
+					map[string]any{"uuid": bcastUUID, "type": "send_broadcast", "text": c.BaseText, "attachments": c.BaseAtts, "quick_replies": c.BaseQRs,
+						"contacts": []any{map[string]any{"uuid": "77777777-7777-4777-8777-777777777771", "name": "Other"}}},
 				},
 				"exits": []any{map[string]any{"uuid": exit0UUID, "destination_uuid": node2UUID}},
 			},
@@ -195,6 +206,14 @@ type observed struct {
 	SetResCatL  string   `json:"set_run_result_category_localized"`
 	RouterCat   string   `json:"router_category"`
 	RouterCatL  string   `json:"router_category_localized"`
+	Bcast       []bcastTr `json:"broadcast_translations"` // sorted by language index
+}
+
+type bcastTr struct {
+	Lang int      `json:"lang"`
+	Text string   `json:"text"`
+	Atts []string `json:"attachments"`
+	QRs  []string `json:"quick_replies"`
 }
 
 func run(c *config) (*observed, error) {
@@ -249,9 +268,24 @@ func run(c *config) (*observed, error) {
 			o.QRs = append(o.QRs, ev.Msg.QuickReplies()...)
 			lang, _ := ev.Msg.Locale().Split()
 			o.Lang = langIndex(string(lang))
+		case *events.BroadcastCreatedEvent:
+			if langIndex(string(ev.BaseLanguage)) != baseLang {
+				return nil, fmt.Errorf("broadcast base language %q", ev.BaseLanguage)
+			}
+			for l, tr := range ev.Translations {
+				b := bcastTr{Lang: langIndex(string(l)), Text: tr.Text, Atts: []string{}, QRs: append([]string{}, tr.QuickReplies...)}
+				for _, a := range tr.Attachments {
+					b.Atts = append(b.Atts, string(a))
+				}
+				o.Bcast = append(o.Bcast, b)
+			}
+			sort.Slice(o.Bcast, func(i, j int) bool { return o.Bcast[i].Lang < o.Bcast[j].Lang })
 		case *events.ErrorEvent:
 			return nil, fmt.Errorf("error event: %s", ev.Text)
 		}
+	}
+	if o.Bcast == nil {
+		return nil, fmt.Errorf("no broadcast_created event")
 	}
 	if nmsg != 1 {
 		return nil, fmt.Errorf("expected 1 msg_created, got %d", nmsg)
@@ -292,6 +326,37 @@ func pick(c *config, prop string, native []string) ([]string, int) {
 		}
 	}
 	return native, baseLang
+}
+
+// languages the flow's localization has entries for, in the order Localization.Languages() gives them (sorted codes)
+func locLangs(c *config) []int {
+	var out []int
+	for _, l := range []int{1, 2, 3} { // eng < fra < spa
+		for li, tl := range trLangs {
+			if tl != l {
+				continue
+			}
+			for _, p := range props {
+				if c.Tr[p.name][li] != nil {
+					out = append(out, l)
+					goto next
+				}
+			}
+		}
+	next:
+	}
+	return out
+}
+
+// what the statement prescribes for one property of a broadcast in language l: the translation of l when it is
+// not the base language and has a non-empty one, the base value otherwise
+func pickFor(c *config, prop string, native []string, l int) []string {
+	if l != baseLang && (l == 2 || l == 3) {
+		if arr := c.Tr[prop][l-2]; nonEmpty(arr) {
+			return arr
+		}
+	}
+	return native
 }
 
 func eqs(a, b []string) bool {
@@ -357,7 +422,31 @@ func oracle(c *config, o *observed, res *hx.Result) {
 	if o.SetResCatL != wantL {
 		fail("set-run-result-category", fmt.Sprintf("category_localized %q, statement prescribes %q", o.SetResCatL, wantL))
 	}
-	res.OracleChecks += 6
+	// send_broadcast: one content per language (base + every language of the localization), each property resolved
+	// independently for that language
+	wantLangs := map[int]bool{baseLang: true}
+	for _, l := range locLangs(c) {
+		wantLangs[l] = true
+	}
+	if len(o.Bcast) != len(wantLangs) {
+		fail("broadcast-languages", fmt.Sprintf("broadcast has %d translations, localization + base give %d languages", len(o.Bcast), len(wantLangs)))
+	}
+	for _, b := range o.Bcast {
+		if !wantLangs[b.Lang] {
+			fail("broadcast-languages", fmt.Sprintf("broadcast has a translation for %q", langCodes[b.Lang]))
+			continue
+		}
+		if t := pickFor(c, "text", []string{c.BaseText}, b.Lang); b.Text != t[0] {
+			fail("broadcast-text-choice", fmt.Sprintf("%s text %q, statement prescribes %q", langCodes[b.Lang], b.Text, t[0]))
+		}
+		if a := pickFor(c, "attachments", c.BaseAtts, b.Lang); !eqs(b.Atts, a) {
+			fail("broadcast-attachments-choice", fmt.Sprintf("%s attachments %v, statement prescribes %v", langCodes[b.Lang], b.Atts, a))
+		}
+		if q := pickFor(c, "quick_replies", c.BaseQRs, b.Lang); !eqs(b.QRs, q) {
+			fail("broadcast-quick-replies-choice", fmt.Sprintf("%s quick replies %v, statement prescribes %v", langCodes[b.Lang], b.QRs, q))
+		}
+	}
+	res.OracleChecks += 7
 }
 
 // ---- Coq emission ----------------------------------------------------------------------------------
@@ -377,10 +466,14 @@ func trCoq(c *config, prop string) string {
 func caseCoq(c *config, o *observed) string {
 	return fmt.Sprintf("{| k_clang := %s; k_allowed := %s; k_text := %s; k_atts := %s; k_qrs := %s; k_args := %s;\n"+
 		"     k_tr_text := %s; k_tr_atts := %s; k_tr_qrs := %s; k_tr_args := %s; k_tr_name := %s; k_tr_cat := %s;\n"+
-		"     k_o_text := %s; k_o_atts := %s; k_o_qrs := %s; k_o_lang := %s; k_o_setres := %s; k_o_matched := %s; k_o_catl := %s |}",
+		"     k_o_text := %s; k_o_atts := %s; k_o_qrs := %s; k_o_lang := %s; k_o_setres := %s; k_o_matched := %s; k_o_catl := %s;\n"+
+		"     k_loc_langs := %s; k_o_bcast := %s |}",
 		hx.N(c.ContactLang), hx.List(c.Allowed, hx.N), hx.Str(c.BaseText), hx.List(c.BaseAtts, hx.Str), hx.List(c.BaseQRs, hx.Str), hx.List(c.BaseArgs, hx.Str),
 		trCoq(c, "text"), trCoq(c, "attachments"), trCoq(c, "quick_replies"), trCoq(c, "arguments"), trCoq(c, "name"), trCoq(c, "category"),
-		hx.Str(o.Text), hx.List(o.Atts, hx.Str), hx.List(o.QRs, hx.Str), hx.N(o.Lang), hx.Str(o.SetResCatL), hx.Bool(o.RouterCat == "Bob"), hx.Str(o.RouterCatL))
+		hx.Str(o.Text), hx.List(o.Atts, hx.Str), hx.List(o.QRs, hx.Str), hx.N(o.Lang), hx.Str(o.SetResCatL), hx.Bool(o.RouterCat == "Bob"), hx.Str(o.RouterCatL),
+		hx.List(locLangs(c), hx.N), hx.List(o.Bcast, func(b bcastTr) string {
+			return fmt.Sprintf("(%s, (%s, (%s, %s)))", hx.N(b.Lang), hx.Str(b.Text), hx.List(b.Atts, hx.Str), hx.List(b.QRs, hx.Str))
+		}))
 }
 
 const header = `From Coq Require Import List NArith Bool.
@@ -398,7 +491,7 @@ func main() {
 	res.Exhaustive = true
 	uuids.SetGenerator(uuids.NewSeededGenerator(int64(o.Seed), time.Now))
 
-	const shard = 500
+	const shard = 300
 	var file *hx.CoqFile
 	nfile := 0
 	flush := func() {
